@@ -16,15 +16,21 @@ EXTENDS Integers, Sequences, FiniteSets, TLC, Json
 
 CONSTANTS Universe,   \* track headers that may be present
           Absent,     \* keys that may be selected but are never in the file
-          MaxPresent
+          MaxPresent,
+          StopEarly   \* wrong design (must fail): the partitioner stops after the last selected track it was asked for
 
-VARIABLES pc, present, poison, want, k, tracks, warned, outcome
-vars == <<pc, present, poison, want, k, tracks, warned, outcome>>
+\* [Song] opens the file; [SyncTrack] and [Events] may sit anywhere: slot s = "after the s-th track section" (0 = before all of
+\* them, as Moonscraper writes).  Which sections the FRAMING step hands over (seen) is decided before anything is parsed; the
+\* required-sections check and the routing loop only see those.
+VARIABLES pc, present, poison, want, k, tracks, warned, outcome, slot, seen
+vars == <<pc, present, poison, want, k, tracks, warned, outcome, slot, seen>>
 
 NoSelection == <<"none">>
+Required == {"SyncTrack", "Events"}
 
 Init == /\ pc = "setup" /\ present = <<>> /\ poison = {} /\ want = NoSelection
         /\ k = 1 /\ tracks = <<>> /\ warned = {} /\ outcome = ""
+        /\ slot = [q \in Required |-> 0] /\ seen = {}
 
 RangeOf(sq) == { sq[j] : j \in DOMAIN sq }
 
@@ -32,29 +38,52 @@ AddSection(h, isPoison) ==
   /\ pc = "setup" /\ Len(present) < MaxPresent /\ h \notin RangeOf(present)
   /\ present' = Append(present, h)
   /\ poison' = IF isPoison THEN poison \cup {h} ELSE poison
-  /\ UNCHANGED <<pc, want, k, tracks, warned, outcome>>
+  /\ UNCHANGED <<pc, want, k, tracks, warned, outcome, slot, seen>>
 
-Choose(w) == /\ pc = "setup" /\ want' = w /\ pc' = "route"
-             /\ UNCHANGED <<present, poison, k, tracks, warned, outcome>>
+\* the file in order: the required sections of slot j, then track j + 1
+FileOrder == LET n == Len(present)
+                 At(j) == (IF slot["SyncTrack"] = j THEN <<"SyncTrack">> ELSE <<>>) \o (IF slot["Events"] = j THEN <<"Events">> ELSE <<>>)
+                 RECURSIVE Build(_)
+                 Build(j) == IF j > n THEN <<>> ELSE At(j) \o (IF j < n THEN <<present[j + 1]>> ELSE <<>>) \o Build(j + 1)
+             IN <<"Song">> \o Build(0)
+
+\* framing: every section of the file (the wrong design stops right after the last selected track, once all selected keys
+\* have been met - and never stops if some selected key is not in the file)
+RECURSIVE Upto(_, _, _)
+Upto(f, j, pending) == IF j > Len(f) THEN {}
+                       ELSE {f[j]} \cup (IF pending # {} /\ pending \ {f[j]} = {} THEN {} ELSE Upto(f, j + 1, pending \ {f[j]}))
+SeenOf(w) == IF StopEarly /\ w # NoSelection /\ w[2] # {} THEN Upto(FileOrder, 1, w[2]) ELSE RangeOf(FileOrder)
+
+Choose(w, s1, s2) ==
+  /\ pc = "setup" /\ want' = w
+  /\ s1 \in 0..Len(present) /\ s2 \in 0..Len(present)
+  /\ slot' = [q \in Required |-> IF q = "SyncTrack" THEN s1 ELSE s2]
+  /\ pc' = "frame"
+  /\ UNCHANGED <<present, poison, k, tracks, warned, outcome, seen>>
+
+Frame == /\ pc = "frame" /\ seen' = SeenOf(want)
+         /\ IF (Required \cup {"Song"}) \subseteq SeenOf(want) THEN pc' = "route" /\ UNCHANGED outcome
+            ELSE pc' = "done" /\ outcome' = "ValueError"                      \* "does not contain all required data sections"
+         /\ UNCHANGED <<present, poison, want, k, tracks, warned, slot>>
 
 \* one iteration of the loop over data_sections.items()
 Route ==
   /\ pc = "route" /\ k <= Len(present)
   /\ LET h == present[k] IN
-     IF want # NoSelection /\ h \notin want[2]
-     THEN /\ k' = k + 1 /\ UNCHANGED <<tracks, outcome, pc>>                 \* SkipUnwanted
+     IF h \notin seen \/ (want # NoSelection /\ h \notin want[2])
+     THEN /\ k' = k + 1 /\ UNCHANGED <<tracks, outcome, pc>>                 \* SkipUnwanted (or never framed)
      ELSE IF h \in poison
      THEN /\ outcome' = "ValueError" /\ pc' = "done" /\ UNCHANGED <<tracks, k>>   \* the track's own parser raises
      ELSE /\ tracks' = Append(tracks, h) /\ k' = k + 1 /\ UNCHANGED <<outcome, pc>>
-  /\ UNCHANGED <<present, poison, want, warned>>
+  /\ UNCHANGED <<present, poison, want, warned, slot, seen>>
 
 Finish == /\ pc = "route" /\ k > Len(present) /\ pc' = "done" /\ outcome' = "ok"
-          /\ UNCHANGED <<present, poison, want, k, tracks, warned>>
+          /\ UNCHANGED <<present, poison, want, k, tracks, warned, slot, seen>>
 
 Next == \/ \E h \in Universe, b \in BOOLEAN : AddSection(h, b)
-        \/ Choose(NoSelection)
-        \/ \E w \in SUBSET (Universe \cup Absent) : Choose(<<"some", w>>)
-        \/ Route \/ Finish
+        \/ \E s1, s2 \in 0..MaxPresent : Choose(NoSelection, s1, s2)
+        \/ \E w \in SUBSET (Universe \cup Absent), s1, s2 \in 0..MaxPresent : Choose(<<"some", w>>, s1, s2)
+        \/ Frame \/ Route \/ Finish
 Spec == Init /\ [][Next]_vars
 
 Selected == IF want = NoSelection THEN RangeOf(present) ELSE RangeOf(present) \cap want[2]
@@ -63,10 +92,10 @@ Selected == IF want = NoSelection THEN RangeOf(present) ELSE RangeOf(present) \c
 C13 == pc = "done" =>
          IF Selected \cap poison # {} THEN outcome = "ValueError"
          ELSE outcome = "ok" /\ RangeOf(tracks) = Selected /\ Len(tracks) = Cardinality(Selected)
-Bounded == TLCGet("level") <= 2 * MaxPresent + 4
+Bounded == TLCGet("level") <= 2 * MaxPresent + 5
 
 Emit == pc = "done" =>
-          PrintT(ToJson([present |-> present, poison |-> poison,
+          PrintT(ToJson([present |-> present, poison |-> poison, file |-> FileOrder,
                          want |-> IF want = NoSelection THEN <<"none">> ELSE <<"some", want[2]>>,
                          tracks |-> tracks, outcome |-> outcome]))
 ==============================================================================
